@@ -128,7 +128,7 @@ static void run_cfg( const char* cfgname, const std::string& s, int policy, std:
       // stepper 2 / 3: the input has been used before and was restarted (a history): an eager input is re-based on new counters by
       // restart( byte, line, column ), a lazy one keeps the counters of its construction
       constexpr bool eager = ( T == p::tracking_mode::eager );
-      const bool restarted = stepper >= 2;
+      const bool restarted = stepper >= 4;
       const std::size_t d = ( restarted && eager ) ? 1 : 0;
       p::memory_input< T, Eol, const char* > in( data, dend, "c19", byte0 + 93 * d, line0 + d, col0 + 4 * d );
       if( restarted ) {
@@ -139,7 +139,7 @@ static void run_cfg( const char* cfgname, const std::string& s, int policy, std:
          else {
             in.restart();
          }
-         stepper -= 2;
+         stepper -= 4;
       }
       std::vector< p::position > positions;
       positions.push_back( in.position() );
@@ -148,6 +148,14 @@ static void run_cfg( const char* cfgname, const std::string& s, int policy, std:
          bool ok;
          if( stepper == 0 ) {
             ok = p::parse< p::sor< p::eol, p::any > >( in );
+         }
+         else if( stepper == 2 ) {
+            // literals that contain an end-of-line character among other characters
+            ok = p::parse< p::sor< p::string< '\r', '\n' >, p::string< 'a', '\n' >, p::string< '\n', 'b' >, p::string< 'b', '\r' >, p::any > >( in );
+         }
+         else if( stepper == 3 ) {
+            // opaque multi-byte fields that may span a line end
+            ok = p::parse< p::sor< p::bytes< 2 >, p::any > >( in );
          }
          else {
             ok = p::parse< p::any >( in );
@@ -218,7 +226,7 @@ static void run_cfg( const char* cfgname, const std::string& s, int policy, std:
          }
          if( !bad.empty() ) {
             std::string sig = what + ":" + ( T == p::tracking_mode::lazy ? "lazy" : "eager" ) + ":eol" + std::to_string( policy ) + ( ( byte0 != 0 || col0 != 1 ) ? ":counters" : "" ) + ( restarted ? ":after-restart" : "" ) + ( li.crlf_under_cr_crlf ? ":crlf-under-cr_crlf" : "" );
-            const std::string kase = vf::jobj().str( "cfg", cfgname ).str( "hex", vf::hexs( s ) ).str( "text", vf::show( s ) ).num( "byte0", (long long)byte0 ).num( "line0", (long long)line0 ).num( "col0", (long long)col0 ).num( "stepper", stepper + ( restarted ? 2 : 0 ) ).done();
+            const std::string kase = vf::jobj().str( "cfg", cfgname ).str( "hex", vf::hexs( s ) ).str( "text", vf::show( s ) ).num( "byte0", (long long)byte0 ).num( "line0", (long long)line0 ).num( "col0", (long long)col0 ).num( "stepper", stepper + ( restarted ? 4 : 0 ) ).done();
             const std::string d = std::string( cfgname ) + " input '" + vf::show( s ) + "' initial " + std::to_string( byte0 ) + "/" + std::to_string( line0 ) + "/" + std::to_string( col0 ) + " position byte " + std::to_string( pos.byte ) + " line " + std::to_string( pos.line ) + " column " + std::to_string( pos.column ) + ": " + bad;
             if( is_known( sig ) ) {
                ++R.excluded_known;
@@ -257,7 +265,7 @@ static void run_all( const std::string& s, const char* only = nullptr, long b0 =
          if( b0 >= 0 && ( std::size_t( b0 ) != cn[ 0 ] || std::size_t( l0 ) != cn[ 1 ] || std::size_t( c0 ) != cn[ 2 ] ) ) {
             continue;
          }
-         for( int st = 0; st < 4; ++st ) {
+         for( int st = 0; st < 8; ++st ) {
             if( stepper >= 0 && st != stepper ) {
                continue;
             }
